@@ -139,7 +139,9 @@ class _SocksMachine(object):
             reply = self._data[:2]
             self._data = self._data[2:]
             (version, method) = struct.unpack('BB', reply)
-            if version == 5 and method in [0x00, 0x02]:
+            if version == 5 and method == 0x00:
+                # (0x00, "no authentication required", is the only
+                # method we offer in _send_version)
                 self.version_reply(method)
                 # the server may have coalesced more of its answer
                 if self._data:
